@@ -35,7 +35,7 @@ def build(tier, seed):
     nrand = 25000 if thorough else 900
     for i in range(nrand):
         cases.append({"id": f"rnd-{i}", "kind": "random", "i": i})
-    for i in range(60 if thorough else 4):
+    for i in range(60 if thorough else 6):
         cases.append({"id": f"long-{i}", "kind": "long", "i": i})
 
     def evalfn(case):
@@ -81,8 +81,15 @@ def make_case(case, seed, thorough):
         mx = suites.matrix()
         v, code, name, p = suites.pick(rng)
         if case["kind"] == "long":
+            # long histories: several hundred records per direction under one set of keys (sequence numbers beyond one byte); the cases cycle through the five
+            # versions and TLS 1.2 ChaCha20-Poly1305 so that every nonce / sequence-number construction meets one
+            want = [0x0300, 0x0301, 0x0302, 0x0303, 0x0304, "chacha12"][case["i"] % 6]
+            for _ in range(400):
+                if (want == "chacha12" and v == 0x0303 and p["mode"] == "CHACHA") or v == want:
+                    break
+                v, code, name, p = suites.pick(rng)
             spec, cl = tlssynth.random_spec(rng, v, code, nmax=20, big=False)
-            n = rng.randrange(300, 3000 if thorough else 900)
+            n = rng.randrange(650, 3000 if thorough else 1000)
             spec.app = [(rng.choice("ccs") if rng.random() < 0.8 else "s", rng.randbytes(rng.choice([0, 1, 5, 17, 64]))) for _ in range(n)]
             cl = {"pattern": "long", "nrec": n}
             segkind = rng.choice(["mss", "records", "random"])
